@@ -133,6 +133,11 @@ func (c *clipperBase) checkSplitOwner(outrec *OutRec, splits []int) bool {
 	for _, i := range splits {
 		split := c.outrecList[i]
 		if split.pts == nil && len(split.splits) > 0 {
+			// emptied outrecs can list each other: visit each of them once per outrec
+			if split.recursiveSplit == outrec {
+				continue
+			}
+			split.recursiveSplit = outrec
 			if c.checkSplitOwner(outrec, split.splits) {
 				return true
 			}
